@@ -48,8 +48,8 @@ TRUSTED = [
     "generator expressions of `_box`/`_unbox`; `str(v)` of a non-text class name in a REMOTE_REF is supplied by the harness",
     "the recorder (harness/handlers_rt.py): run-time substitutions in protocol/netref/vinegar namespaces and on "
     "Connection methods that map a real run to the model's event alphabet; sessions it cannot place in the model's "
-    "event order (non-plain id packs in inspect/instancecheck, non-plain argument list in oldslicing, float reference "
-    "counts) are counted as `unobservable`, not compared",
+    "event order (non-plain id packs in inspect/instancecheck, non-plain argument list in oldslicing, a callback made "
+    "outside any observed primitive) are counted as `unobservable`, not compared",
     "vinegar.dump of the exception a handler raised always yields an exception reply of that class (C09 models the "
     "payload; the repaired _send_exception answers even when the payload cannot be serialized); proxy finalisation "
     "traffic (HANDLE_DEL sent by netref.__del__) is kept out by holding every proxy until the session ends (C10)",
